@@ -1,0 +1,127 @@
+//go:build verif
+
+// Contracts for the deductive checker in /verif (comment-only; compiled only with -tags verif).
+// C19: channel identity is unique and consistent everywhere it is reported.
+
+package dastard
+
+// rcCode packs (row, col, rows, cols) into 4 x 16 bits; the four decoders recover each value below 65536.
+//@ func rcCode
+//@   props C19
+//@   requires 0 <= row && row < 65536 && 0 <= col && col < 65536 && 0 <= rows && rows < 65536 && 0 <= cols && cols < 65536
+//@   ensures (result / 1) % 65536 == row && (result / 65536) % 65536 == col && (result / 4294967296) % 65536 == rows && (result / 281474976710656) % 65536 == cols
+
+// ---- Lancero numbering ----
+// Ghost state: gch[d] = number of channels of the cards before card d (prefix sums of 2*ncols*nrows).
+// gdv/gcol/grow[i] are witnesses: the (card ordinal, column, row) that table index i belongs to; Geo ties
+// them to the true geometry (mixed-radix position of i), so they are determined by i alone.
+// ggrp[i] = position in groupKeysSorted of the group that reports channel i.
+//@ ghost field LanceroSource.gch intmap
+//@ ghost field LanceroSource.gdv intmap
+//@ ghost field LanceroSource.gcol intmap
+//@ ghost field LanceroSource.grow intmap
+//@ ghost field LanceroSource.ggrp intmap
+
+//@ lemma muldisj C19: forall a int, b int, s int :: {mul(a, s), mul(b, s)} a < b && s > 0 ==> mul(a, s) + s <= mul(b, s)
+//@ lemma mulmono C19: forall a int, b int, s int :: {mul(a, s), mul(b, s)} 0 <= a && a <= b && s >= 0 ==> mul(a, s) <= mul(b, s) && 0 <= mul(a, s)
+
+//@ pred Dev(ls *LanceroSource, d int) := at(ls.active, ls.active.off + d)
+//@ pred Base(ls *LanceroSource, d int) := mul(Dev(ls, d).devnum, ls.chanSepCards) + ls.firstRowChanNum
+//@ pred ColSep(ls *LanceroSource, dev *LanceroDevice) := ite(ls.chanSepColumns > 0, ls.chanSepColumns, dev.nrows)
+
+// DevsOK: active cards are real and distinct, with 1..65535 rows and columns; the total is ls.nchan.
+//@ pred DevsOK(ls *LanceroSource) := allocated(ls.active) && ls.gch[0] == 0 && ls.nchan == ls.gch[len(ls.active)]
+//@     && (forall p int :: {at(ls.active, p)} ls.active.off <= p && p < ls.active.off + len(ls.active) ==> at(ls.active, p) != nil && allocated(at(ls.active, p))
+//@           && 1 <= at(ls.active, p).nrows && at(ls.active, p).nrows < 65536 && 1 <= at(ls.active, p).ncols && at(ls.active, p).ncols < 65536
+//@           && ls.gch[p - ls.active.off + 1] == ls.gch[p - ls.active.off] + 2 * mul(at(ls.active, p).ncols, at(ls.active, p).nrows))
+//@     && (forall a int, b int :: {ls.gch[a], ls.gch[b]} 0 <= a && a <= b && b <= len(ls.active) ==> ls.gch[a] <= ls.gch[b])
+//@     && (forall p int, q int :: {at(ls.active, p), at(ls.active, q)} ls.active.off <= p && p < q && q < ls.active.off + len(ls.active) ==> at(ls.active, p).devnum != at(ls.active, q).devnum)
+// Accepted(ls): the separation parameters cannot cause channel-number collisions.
+//@ pred Accepted(ls *LanceroSource) := ls.chanSepCards >= 0 && ls.chanSepColumns >= 0
+//@     && (forall p int :: {at(ls.active, p)} ls.active.off <= p && p < ls.active.off + len(ls.active) ==>
+//@           (ls.chanSepColumns > 0 ==> at(ls.active, p).nrows <= ls.chanSepColumns)
+//@        && (ls.chanSepCards > 0 ==> mul(at(ls.active, p).ncols, ColSep(ls, at(ls.active, p))) <= ls.chanSepCards))
+
+// Geo(ls, i): index i is the (i%2)-th channel of row grow[i], column gcol[i] of card gdv[i], and its
+// row/column code decodes to that position and the card's true geometry.
+//@ pred Geo(ls *LanceroSource, i int) := 0 <= ls.gdv[i] && ls.gdv[i] < len(ls.active) && 0 <= ls.gcol[i] && ls.gcol[i] < Dev(ls, ls.gdv[i]).ncols
+//@     && 0 <= ls.grow[i] && ls.grow[i] < Dev(ls, ls.gdv[i]).nrows
+//@     && i == ls.gch[ls.gdv[i]] + 2 * mul(ls.gcol[i], Dev(ls, ls.gdv[i]).nrows) + 2 * ls.grow[i] + i % 2
+//@     && (ls.rowColCodes[i] / 1) % 65536 == ls.grow[i] && (ls.rowColCodes[i] / 65536) % 65536 == ls.gcol[i]
+//@     && (ls.rowColCodes[i] / 4294967296) % 65536 == Dev(ls, ls.gdv[i]).nrows && (ls.rowColCodes[i] / 281474976710656) % 65536 == Dev(ls, ls.gdv[i]).ncols
+
+//@ pred Tables(ls *LanceroSource) := len(ls.chanNumbers) == ls.nchan && len(ls.chanNames) == ls.nchan && len(ls.rowColCodes) == ls.nchan && len(ls.subframeOffsets) == ls.nchan
+//@     && fresh(ls.chanNumbers) && fresh(ls.chanNames) && fresh(ls.rowColCodes) && fresh(ls.subframeOffsets)
+//@     && (ls.groupKeysSorted.arr == 0 || fresh(ls.groupKeysSorted)) && allocated(ls.groupKeysSorted)
+//@ pred Fixed(ls *LanceroSource) := DevsOK(ls) && unchanged(ls.active, ls.chanSepColumns, ls.chanSepCards, ls.nchan, ls.firstRowChanNum) && old(Accepted(ls)) && ls.channelsPerPixel == 2
+
+// Numbering invariants over the first n table entries.
+//@ pred Partners(ls *LanceroSource, n int) := forall i int :: {ls.chanNumbers[i]} 0 <= i && i + 1 < n && i % 2 == 0 ==> ls.chanNumbers[i] == ls.chanNumbers[i + 1] && ls.rowColCodes[i] == ls.rowColCodes[i + 1]
+//@ pred GeoAll(ls *LanceroSource, n int) := forall i int :: {ls.gdv[i]} 0 <= i && i < n ==> Geo(ls, i)
+//@ pred InCard(ls *LanceroSource, n int) := ls.chanSepCards > 0 ==> (forall i int :: {ls.chanNumbers[i]} 0 <= i && i < n ==> Base(ls, ls.gdv[i]) <= ls.chanNumbers[i] && ls.chanNumbers[i] < Base(ls, ls.gdv[i]) + ls.chanSepCards)
+//@ pred Ordered(ls *LanceroSource, n int) := forall i int, j int :: {ls.chanNumbers[i], ls.chanNumbers[j]} 0 <= i && i < j && j < n && i % 2 == 0 && j % 2 == 0 && (ls.chanSepCards == 0 || ls.gdv[i] == ls.gdv[j]) ==> ls.chanNumbers[i] < ls.chanNumbers[j]
+//@ pred Below(ls *LanceroSource, n int, d int, next int) := forall i int :: {ls.chanNumbers[i]} 0 <= i && i < n && (ls.chanSepCards == 0 || ls.gdv[i] == d) ==> ls.chanNumbers[i] < next
+//@ pred CardOf(ls *LanceroSource, n int, d int) := forall i int :: {ls.gdv[i]} 0 <= i && i < n ==> (ls.gdv[i] <= d && (i >= ls.gch[d] ==> ls.gdv[i] == d))
+
+//@ func (*LanceroSource).PrepareChannels
+//@   props C19
+//@   uses mulzero
+//@   uses muldisj
+//@   uses mulmono
+//@   requires DevsOK(ls)
+//@   apply forall p int :: {at(ls.active, p)} mul_def(at(ls.active, p).devnum, ls.chanSepCards)
+//@   ensures rejects: result == nil ==> old(Accepted(ls))
+//@   ensures tables: result == nil ==> len(ls.chanNumbers) == ls.nchan && len(ls.chanNames) == ls.nchan && len(ls.rowColCodes) == ls.nchan && len(ls.subframeOffsets) == ls.nchan && ls.channelsPerPixel == 2
+//@   ensures partners: result == nil ==> Partners(ls, ls.nchan)
+//@   ensures geometry: result == nil ==> GeoAll(ls, ls.nchan)
+//@   ensures distinct: result == nil ==> (forall i int, j int :: {ls.chanNumbers[i], ls.chanNumbers[j]} 0 <= i && i < j && j < ls.nchan && i % 2 == 0 && j % 2 == 0 ==> ls.chanNumbers[i] != ls.chanNumbers[j])
+//@   modifies ls.channelsPerPixel, ls.chanSepColumns, ls.rowColCodes, ls.chanNames, ls.chanNumbers, ls.subframeOffsets, ls.groupKeysSorted, ls.subframeDivisions, ls.mixedRowCounts, ls.gdv, ls.gcol, ls.grow, ls.ggrp
+// (ghost assignments run at the end of the loop body, where index and row are already advanced)
+//@   ghost loop 5: ls.gdv[index - 2] := rangeindex3
+//@   ghost loop 5: ls.gdv[index - 1] := rangeindex3
+//@   ghost loop 5: ls.gcol[index - 2] := col
+//@   ghost loop 5: ls.gcol[index - 1] := col
+//@   ghost loop 5: ls.grow[index - 2] := row - 1
+//@   ghost loop 5: ls.grow[index - 1] := row - 1
+//@   loop 1
+//@     invariant -1 <= rangeindex && rangeindex <= len(ls.active) - 1 && DevsOK(ls) && unchanged(ls.active, ls.chanSepColumns, ls.chanSepCards, ls.nchan, ls.firstRowChanNum) && ls.chanSepColumns > 0 && ls.chanSepCards >= 0
+//@     invariant done: forall p int :: {at(ls.active, p)} ls.active.off <= p && p <= ls.active.off + rangeindex ==> at(ls.active, p).nrows <= ls.chanSepColumns
+//@   loop 2
+//@     invariant -1 <= rangeindex && rangeindex <= len(ls.active) - 1 && DevsOK(ls) && unchanged(ls.active, ls.chanSepColumns, ls.chanSepCards, ls.nchan, ls.firstRowChanNum) && ls.chanSepColumns >= 0 && ls.chanSepCards > 0
+//@     invariant cols: forall p int :: {at(ls.active, p)} ls.active.off <= p && p < ls.active.off + len(ls.active) ==> (ls.chanSepColumns > 0 ==> at(ls.active, p).nrows <= ls.chanSepColumns)
+//@     invariant done: forall p int :: {at(ls.active, p)} ls.active.off <= p && p <= ls.active.off + rangeindex ==> mul(at(ls.active, p).ncols, ColSep(ls, at(ls.active, p))) <= ls.chanSepCards
+//@     apply mul_def(at(ls.active, ls.active.off + rangeindex + 1).ncols, ColSep(ls, at(ls.active, ls.active.off + rangeindex + 1))) && mul_def(ColSep(ls, at(ls.active, ls.active.off + rangeindex + 1)), at(ls.active, ls.active.off + rangeindex + 1).ncols)
+//@   loop 3
+//@     invariant -1 <= rangeindex && rangeindex <= len(ls.active) - 1 && Fixed(ls)
+//@     invariant tables: Tables(ls)
+//@     invariant index: index == ls.gch[rangeindex + 1] && index % 2 == 0 && index >= 0
+//@     invariant partners: Partners(ls, index)
+//@     invariant geo: GeoAll(ls, index)
+//@     invariant cardof: CardOf(ls, index, rangeindex)
+//@     invariant incard: InCard(ls, index)
+//@     invariant ordered: Ordered(ls, index)
+//@     invariant below: ls.chanSepCards == 0 ==> Below(ls, index, 0, ite(ls.chanSepColumns > 0, thisColFirstCnum + ls.chanSepColumns, cnum)) && (ls.chanSepColumns > 0 ==> cnum <= thisColFirstCnum + ls.chanSepColumns)
+//@   loop 4
+//@     invariant 0 <= rangeindex3 && rangeindex3 < len(ls.active) && device == Dev(ls, rangeindex3) && 0 <= col && col <= device.ncols && Fixed(ls)
+//@     invariant tables: Tables(ls)
+//@     invariant index: index == ls.gch[rangeindex3] + 2 * mul(col, device.nrows) && index % 2 == 0 && index >= 0
+//@     invariant partners: Partners(ls, index)
+//@     invariant geo: GeoAll(ls, index)
+//@     invariant cardof: CardOf(ls, index, rangeindex3)
+//@     invariant incard: InCard(ls, index)
+//@     invariant ordered: Ordered(ls, index)
+//@     invariant below: Below(ls, index, rangeindex3, ite(ls.chanSepColumns > 0, thisColFirstCnum + ls.chanSepColumns, cnum)) && (ls.chanSepColumns > 0 ==> cnum <= thisColFirstCnum + ls.chanSepColumns)
+//@     invariant next: ls.chanSepCards > 0 ==> ite(ls.chanSepColumns > 0, thisColFirstCnum + ls.chanSepColumns, cnum) == Base(ls, rangeindex3) + mul(col, ColSep(ls, device))
+//@     apply mulstep(col, device.nrows) && frameindex(col, device.ncols, 0, device.nrows) && mulstep(col, ColSep(ls, device))
+//@   loop 5
+//@     invariant 0 <= rangeindex3 && rangeindex3 < len(ls.active) && device == Dev(ls, rangeindex3) && 0 <= col && col < device.ncols && 0 <= row && row <= device.nrows && Fixed(ls)
+//@     invariant tables: Tables(ls)
+//@     invariant index: index == ls.gch[rangeindex3] + 2 * mul(col, device.nrows) + 2 * row && index % 2 == 0 && index >= 0
+//@     invariant partners: Partners(ls, index)
+//@     invariant geo: GeoAll(ls, index)
+//@     invariant cardof: CardOf(ls, index, rangeindex3)
+//@     invariant incard: InCard(ls, index)
+//@     invariant ordered: Ordered(ls, index)
+//@     invariant below: Below(ls, index, rangeindex3, cnum) && cnum == thisColFirstCnum + row
+//@     invariant next: ls.chanSepCards > 0 ==> thisColFirstCnum == Base(ls, rangeindex3) + mul(col, ColSep(ls, device))
+//@     apply frameindex(col, device.ncols, row, device.nrows) && mulstep(col, device.nrows) && frameindex(col, device.ncols, row, ColSep(ls, device)) && mulstep(col, ColSep(ls, device))
